@@ -492,6 +492,28 @@ func concSection(w *vhlib.Writer, o vhlib.Opts, rng *vhlib.Rng, rounds int, hot 
 				c.Ops = 6
 			}
 		}
+		if c.SlowCtor && !isSet {
+			// the slow constructor holds predecessor locks: everything on the neighbouring keys overlaps
+			if c.N > 5 {
+				c.N = 5
+			}
+			if c.Ops > 5 {
+				c.Ops = 5
+			}
+		}
+		if c.YieldPct == 50 {
+			// reschedule at about one in eight of the in-code yield points: operations overlap much more,
+			// so keep the history small for lin_check
+			setHooks(perturbHook)
+			if c.N > 6 {
+				c.N = 6
+			}
+			if c.Ops > 6 {
+				c.Ops = 6
+			}
+		} else {
+			setHooks(nil)
+		}
 		runtime.GOMAXPROCS(c.Procs)
 		stop := startBusy(c.Busy)
 		clock = 0
@@ -572,6 +594,7 @@ func concSection(w *vhlib.Writer, o vhlib.Opts, rng *vhlib.Rng, rounds int, hot 
 			[]string{"history not linearizable (incl. quiescent Len/Keys/Values)", "Range"},
 			map[string]interface{}{"config": c, "variant": mapVariants[variant], "history": r.hist, "ranges": r.ranges})
 	}
+	setHooks(nil)
 	w.Notes["concurrent_rounds"] = rounds
 	w.Notes["rounds_with_overlapping_operations"] = overlaps
 }
